@@ -77,7 +77,7 @@ pub fn run(tier: Tier, seed: u64) -> i32 {
     });
     ctx.exhaustive.store(false, std::sync::atomic::Ordering::Relaxed);
     // random tier
-    let n = ctx.pick(40_000, 800_000);
+    let n = ctx.pick(300_000, 4_000_000);
     ctx.par_random(n, 160, 1, |tape, l| {
         let (g, input, sub) = decode(tape);
         debug_assert!(wf(&g), "generator produced an ill-formed grammar: {}", render(&g));
